@@ -36,10 +36,11 @@ def run_cfg(ctx, name, text, expect_violation=None, workers=16):
         shutil.rmtree(d, ignore_errors=True)
 
 
-def scaled_metric(a, b, scale=1, w=(1, 1, 1)):
-    """metric callable for the functional helpers; `scale` must arrive through **kwargs forwarding"""
+def scaled_metric(a, b, scale=1, w=(1, 1, 1), offset=0):
+    """metric callable for the functional helpers; `scale` / `offset` must arrive through **kwargs forwarding. With an offset the
+    callable is not zero on identical arguments (a negated similarity, a score): the helpers must call it for every pair."""
     from rapidfuzz.distance import Levenshtein as L
-    return scale * L.distance(a, b, weights=tuple(w))
+    return offset + scale * L.distance(a, b, weights=tuple(w))
 
 
 def container(strs, kind):
@@ -76,9 +77,9 @@ def replay_doc(ctx, doc, n, letters):
             got = np.asarray(metric.calc_cdist_matrix(container(X, cont), container(Y, cont)))
             if got.shape != (len(X), len(Y)) or got.tolist() != doc["D"]:
                 viol(f"{type(metric).__name__}/cdist/entry_wrong", f"{name}.calc_cdist_matrix({X}, {Y}) = {got.tolist()} want {doc['D']}")
-            got = prs.cdist(container(X, cont), container(Y, cont), metric=scaled_metric, dtype=np.int64, scale=3, w=tuple(w))
-            if got.tolist() != [[3 * v for v in row] for row in doc["D"]]:
-                viol("cdist/functional/entry_wrong", f"cdist({X}, {Y}, metric, scale=3, w={w}) = {got.tolist()} want 3*{doc['D']}")
+            got = prs.cdist(container(X, cont), container(Y, cont), metric=scaled_metric, dtype=np.int64, scale=3, w=tuple(w), offset=1)
+            if got.tolist() != [[3 * v + 1 for v in row] for row in doc["D"]]:
+                viol("cdist/functional/entry_wrong", f"cdist({X}, {Y}, metric, scale=3, offset=1, w={w}) = {got.tolist()} want 3*{doc['D']}+1")
             if w == [1, 1, 1]:
                 got = prs.cdist(X, Y)
                 if got.tolist() != doc["D"]:
@@ -94,9 +95,9 @@ def replay_doc(ctx, doc, n, letters):
                 if got.tolist() != doc["vec"]:
                     viol(f"{type(metric).__name__}/pdist/layout_or_entry_wrong", f"{name}.calc_pdist_vector({X}) = {got.tolist()} want {doc['vec']}")
             else:
-                got = prs.pdist(container(X, cont), metric=scaled_metric, dtype=np.int64, scale=2, w=tuple(w))
-                if got.tolist() != [2 * v for v in doc["vec"]]:
-                    viol("pdist/functional/layout_or_entry_wrong", f"pdist({X}, metric, scale=2, w={w}) = {got.tolist()} want 2*{doc['vec']}")
+                got = prs.pdist(container(X, cont), metric=scaled_metric, dtype=np.int64, scale=2, w=tuple(w), offset=5)
+                if got.tolist() != [2 * v + 5 for v in doc["vec"]]:
+                    viol("pdist/functional/layout_or_entry_wrong", f"pdist({X}, metric, scale=2, offset=5, w={w}) = {got.tolist()} want 2*{doc['vec']}+5")
                 if w == [1, 1, 1]:
                     got = prs.pdist(X)
                     if got.tolist() != doc["vec"]:
